@@ -41,7 +41,11 @@ Conventions fixed here where the docs are silent (the implementation decides):
 * a range-restricted capture stream additionally drops captures whose node is outside the range
   (`captureOutside`, the test used by `ts_query_cursor_next_capture`);
 * "document order" is non-decreasing start byte;
-* a match "intersects" a range when its root node and the root's parent do (`keepIntersect`).
+* a match "intersects" a range when its root node and the root's parent do (`keepIntersect`);
+  zero-width roots are not constrained (`emptyRoot`: `range_within` and the `range_intersects`
+  that gates the descent disagree on them, see `range_intersects_parent` and its counterexample);
+* for queries with quantifiers or alternations (split / twin states, deferred completion) the
+  range clause requires soundness only and the removal clause only an unchanged prefix.
 -/
 namespace TsVerif.C11
 open TsGen
